@@ -28,6 +28,9 @@ ASSUMPTIONS = [
     "named unprotected = priority, repeat, hop count, frame type; other = message code, additional-info length, NPDU length, "
     "Ctrl1 reserved / system-broadcast / ack / confirm bits",
     "4-octet MAC: a tampered frame passing by chance has probability 2^-32 per variant (not observed; would show up as a violation)",
+    "bits outside the protected fields and outside the four named ones (message code, additional-info length, NPDU length, Ctrl1 r/SB/A/C): "
+    "no exception; a delivered telegram must equal the original unless the octets now read as an unrelated plain frame (not marked "
+    "data_secure, not addressed to the secured group) - such a frame can be injected directly and is outside this property",
     "delivery observed at xknx.telegrams and xknx.management.process (recorder); receiver's last valid sequence number is 0 so that "
     "a flipped sequence number is judged by the MAC and not by freshness",
 ]
@@ -91,7 +94,15 @@ def oracle(ctx, spec) -> None:
             if len(got) != 1 or not same_telegram(got[0], plain):
                 ctx.fail(f"C16:unprotected-bit-affects-acceptance:{lab}", inp("flip", i), f"flip of bit {i} ({lab}) -> {len(got)} delivered {got[:1]}; genuine frame {raw.hex()}")
         elif got and (len(got) != 1 or not same_telegram(got[0], plain)):
-            ctx.fail(f"C16:other-bit-alters-telegram:{lab}", inp("flip", i), f"flip of bit {i} ({lab}) delivered {got}; genuine frame {raw.hex()}")
+            # A flipped additional-info-length / NPDU-length / message-code bit can make the octets read as a
+            # DIFFERENT, plain frame (e.g. ciphertext octets read as a point-to-point frame). Anybody can inject
+            # such a plain frame directly, so that is no Data Secure failure - unless the delivered telegram is
+            # marked data_secure or addressed to the secured group (which accepts no plain data).
+            bad = [t for t in got if t.data_secure is not False or t.destination_address == plain.dst_addr]
+            if bad:
+                ctx.fail(f"C16:other-bit-alters-telegram:{lab}", inp("flip", i), f"flip of bit {i} ({lab}) delivered {bad}; genuine frame {raw.hex()}")
+            else:
+                ctx.classes[f"reinterpreted-as-unrelated-plain-frame:{lab}"] += 1
     ctx.bulk(len(labels), len(labels), "bit-flip")
     for lab in set(labels):
         ctx.classes["bits:" + lab] += labels.count(lab)
